@@ -71,14 +71,51 @@ func runLBCB(x *X) {
 		at    time.Duration
 		class string
 	}
-	var fails []fail // failed proxied requests since the breaker was last known closed
-	var openedAfter time.Duration = -1
+	// Harness-side model of what the statement allows. mode:
+	//   closed   - known closed; failures accumulate in `fails`
+	//   open     - opened at/after openedAfter; until openedAfter+timeout every request must be
+	//              rejected with 503 and no backend contact
+	//   probing  - the timeout has elapsed: half-open trials; 429 (trial limit) is legal, a
+	//              failed trial must reopen, success_threshold successes close
+	mode := "closed"
+	var fails []fail
+	var openedAfter time.Duration
+	succ := 0
 	var steps []string
 	classes := []string{"ok", "s500", "unreach", "abort", "ok"}
 	doReq := func(class string) (simResult, bool) {
 		var r simResult
 		ok := x.Do("req", func() { r = h.do(reqSpec{client: "192.0.2.1", plan: &reqPlan{mode: class}}) }, onErr)
 		return r, ok
+	}
+	failClasses := func() string {
+		cl := ""
+		for _, k := range []string{"s500", "unreach", "abort"} {
+			for _, f := range fails {
+				if f.class == k {
+					cl += k + "+"
+					break
+				}
+			}
+		}
+		if cl == "" {
+			return "-"
+		}
+		return cl[:len(cl)-1]
+	}
+	// mustBeOpen issues one more request right away and demands a breaker rejection
+	mustBeOpen := func(why string) bool {
+		r2, ok2 := doReq("ok")
+		if !ok2 {
+			return false
+		}
+		if dispatched(r2.id) || r2.status != 503 {
+			x.Violate("C07", "C07/failures-did-not-open{"+why+"}", "%s did not open the circuit: the next request got %d and contacted a backend=%v (failure_threshold %d, interval %v)", why, r2.status, dispatched(r2.id), cb.FailureThreshold, interval)
+			return true
+		}
+		mode, openedAfter = "open", x.Now()
+		x.Probe("circuit-opened")
+		return true
 	}
 	nSteps := 3 + c.Intn(10, "nsteps")
 	for i := 0; i < nSteps && !x.dead; i++ {
@@ -106,89 +143,69 @@ func runLBCB(x *X) {
 			x.Fault("backend-" + class)
 		}
 		invAt := x.Now()
+		if mode == "open" && invAt > openedAfter+timeout {
+			mode, succ = "probing", 0
+		}
 		r, ok := doReq(class)
 		if !ok {
 			break
 		}
 		contacted := dispatched(r.id)
-		rejected := !contacted && (r.status == 503 || r.status == 429)
-		// ---- while definitely open: rejected with 503, no backend contacted ----
-		if openedAfter >= 0 && invAt < openedAfter+timeout {
-			if contacted {
-				x.Violate("C07", "C07/backend-contacted-while-open", "request at t=%v reached a backend although the breaker opened at/after t=%v (timeout %v)", invAt, openedAfter, timeout)
-			} else if r.status != 503 {
-				x.Violate("C07", "C07/open-wrong-status", "request at t=%v while open got %d instead of 503", invAt, r.status)
-			}
-			x.Probe("rejected-while-open")
-			continue
-		}
-		if rejected {
-			if openedAfter < 0 || invAt >= openedAfter+timeout {
-				// a rejection we did not predict: legal only in a half-open episode (429) or
-				// after enough failures
-				if len(fails) < cb.FailureThreshold && openedAfter < 0 {
-					x.Violate("C07", "C07/opened-below-threshold{system}", "request at t=%v was rejected (%d) after only %d failed proxied requests (failure_threshold %d)", invAt, r.status, len(fails), cb.FailureThreshold)
-				}
-			}
-			continue
-		}
-		failed := class == "s500" || class == "unreach" || class == "abort"
-		if openedAfter >= 0 && invAt >= openedAfter+timeout {
-			// half-open trial or closed again: restart the bookkeeping conservatively
-			if failed {
-				// a failed trial reopens; a failure after closing counts as the first one
-				openedAfter = -1
-				fails = nil
+		failed := contacted && (class == "s500" || class == "unreach" || class == "abort")
+		switch mode {
+		case "open":
+			if invAt < openedAfter+timeout { // strictly inside: the boundary instant is not judged
 				if contacted {
-					// if this was a trial the breaker is open again from now on
-					var r2 simResult
-					r2, ok = doReq("ok")
-					if !ok {
+					x.Violate("C07", "C07/backend-contacted-while-open", "request at t=%v reached a backend although the breaker opened at t=%v (timeout %v)", invAt, openedAfter, timeout)
+				} else if r.status != 503 {
+					x.Violate("C07", "C07/open-wrong-status", "request at t=%v while open got %d instead of 503", invAt, r.status)
+				}
+				x.Probe("rejected-while-open")
+			} else if contacted {
+				mode, succ = "probing", 0
+				if failed {
+					if !mustBeOpen("a failed trial at the timeout boundary") {
 						break
 					}
-					if !dispatched(r2.id) && r2.status == 503 {
-						openedAfter = x.Now()
-						x.Probe("trial-failure-reopened")
-					} else if cb.FailureThreshold > 1 {
-						// closed meanwhile is possible only if success_threshold trials succeeded before; fine
-					}
+				} else {
+					succ++
 				}
-			} else {
-				openedAfter = -1
-				fails = nil
 			}
-			continue
-		}
-		if failed && contacted {
-			// gap rule: a gap longer than interval may reset the count
-			if n := len(fails); n > 0 && x.Now()-fails[n-1].at > interval {
+		case "probing":
+			switch {
+			case !contacted:
+				// 429: trial limit reached; 503: another trial failed meanwhile (not possible here) — not judged
+			case failed:
+				x.Probe("trial-failed")
 				fails = nil
-			}
-			fails = append(fails, fail{x.Now(), class})
-			if len(fails) >= cb.FailureThreshold {
-				// the breaker must be open now: the next request (immediately) is rejected
-				r2, ok2 := doReq("ok")
-				if !ok2 {
+				if !mustBeOpen("a failed half-open trial") {
 					break
 				}
-				if dispatched(r2.id) || r2.status != 503 {
-					// fingerprint by the kinds of failure that were not counted (aborted
-					// responses are the one kind the pinned tree does count)
-					cl := ""
-					for _, k := range []string{"s500", "unreach", "abort"} {
-						for _, f := range fails {
-							if f.class == k && (k != "abort" || cl == "") {
-								cl += k + "+"
-								break
-							}
-						}
+			default:
+				succ++
+				if succ >= cb.SuccessThreshold {
+					mode, fails = "closed", nil
+					x.Probe("closed-again")
+				}
+			}
+		case "closed":
+			if !contacted {
+				x.Violate("C07", "C07/opened-below-threshold{system}", "request at t=%v was rejected (%d) after only %d failed proxied requests (failure_threshold %d)", invAt, r.status, len(fails), cb.FailureThreshold)
+				break
+			}
+			if failed {
+				if n := len(fails); n > 0 && x.Now()-fails[n-1].at > interval {
+					fails = nil // a gap longer than interval may reset the count
+				}
+				fails = append(fails, fail{x.Now(), class})
+				if len(fails) >= cb.FailureThreshold {
+					why := fmt.Sprintf("%d failed proxied requests (%s) within the interval", len(fails), failClasses())
+					_ = why
+					cl := failClasses()
+					fails = nil
+					if !mustBeOpen(cl) {
+						break
 					}
-					x.Violate("C07", "C07/failures-did-not-open{"+cl[:len(cl)-1]+"}", "%d failed proxied requests (%s) within the interval (%v) did not open the circuit: the next request got %d and contacted a backend=%v (failure_threshold %d)", len(fails), cl[:len(cl)-1], interval, r2.status, dispatched(r2.id), cb.FailureThreshold)
-					fails = nil
-				} else {
-					openedAfter = fails[len(fails)-1].at
-					x.Probe("circuit-opened")
-					fails = nil
 				}
 			}
 		}
